@@ -125,7 +125,8 @@ def oracle_labels(data, lab, n):
     return None
 
 
-def make_enum_runner():
+def make_enum_runner(fortran=False):
+    """fortran=True: the raster handed to the kernel is F-ordered (a transposed view), same cell values"""
     from xrspatial.zonal import _area_connectivity as kern
 
     @njit(cache=False)
@@ -135,7 +136,10 @@ def make_enum_runner():
         ncell = rows * cols
         out = np.zeros((cnt, ncell), dtype=np.int64)
         codes = np.zeros(cnt, dtype=np.int64)
-        r = np.empty((rows, cols), dtype=np.float64)
+        if fortran:
+            r = np.empty((cols, rows), dtype=np.float64).T
+        else:
+            r = np.empty((rows, cols), dtype=np.float64)
         for dt in range(cnt):
             t = t0 + dt
             for i in range(ncell):
@@ -159,6 +163,214 @@ def enum_raster(rows, cols, alphabet, t):
         vals.append(alphabet[t % k])
         t //= k
     return np.array(vals, dtype=np.float64).reshape(rows, cols)
+
+
+# ---------------------------------------------------------------- memory layouts
+# The same logical raster under different memory layouts.  The model / oracle always see the logical
+# (row-major) raster; only the array handed to the real code changes.
+#   C          C-contiguous            F          np.asfortranarray
+#   T          transposed view of the C-ordered transpose (what `.T` / DataArray.transpose hand out)
+#   strided    every 2nd row / 3rd column of a larger C array (neither C- nor F-contiguous)
+#   stridedF   the same cut out of a larger F-ordered array
+#   neg        negative strides in both axes        negrow   negative row stride only
+#   readonly / readonlyF   C / F array with flags.writeable = False
+#   xrT        DataArray built on the transposed array with swapped dims, then .transpose(...)
+LAYOUTS = ["C", "F", "T", "strided", "stridedF", "neg", "negrow", "readonly", "readonlyF", "xrT"]
+NUMBA_CHEAP_LAYOUTS = ["C", "F", "T", "strided", "stridedF", "neg", "negrow", "xrT"]   # no extra read-only specialisation
+
+
+def lay(a, layout):
+    """the same values (and dtype, shape) under another memory layout"""
+    a = np.ascontiguousarray(a)
+    if a.ndim != 2 or layout in (None, "C"):
+        return a
+    h, w = a.shape
+    fill = 0 if a.dtype.kind == "b" else 99
+    if layout == "F":
+        return np.asfortranarray(a)
+    if layout in ("T", "xrT"):
+        return np.ascontiguousarray(a.T).T
+    if layout == "strided":
+        big = np.full((2 * h + 1, 3 * w + 2), fill, dtype=a.dtype)
+        v = big[1::2, 2::3][:h, :w]
+        v[...] = a
+        return v
+    if layout == "stridedF":
+        big = np.full((3 * w + 2, 2 * h + 1), fill, dtype=a.dtype)
+        v = big.T[1::2, 2::3][:h, :w]
+        v[...] = a
+        return v
+    if layout == "neg":
+        return np.ascontiguousarray(a[::-1, ::-1])[::-1, ::-1]
+    if layout == "negrow":
+        return np.ascontiguousarray(a[::-1, :])[::-1, :]
+    if layout == "readonly":
+        b = a.copy()
+        b.flags.writeable = False
+        return b
+    if layout == "readonlyF":
+        b = np.asfortranarray(a).copy(order="F")
+        b.flags.writeable = False
+        return b
+    raise ValueError(layout)
+
+
+def pick_layout(rng, shape, cheap=False):
+    """half of the cases C-ordered, the rest spread over the other layouts"""
+    if rng.random() < 0.4:
+        return "C"
+    return rng.choice((NUMBA_CHEAP_LAYOUTS if cheap else LAYOUTS)[1:])
+
+
+def layout_class(arr):
+    """how numba types the array: C / F / A(ny), + ro"""
+    k = "C" if arr.flags.c_contiguous else ("F" if arr.flags.f_contiguous else "A")
+    return k + ("" if arr.flags.writeable else "+ro")
+
+
+# ---------------------------------------------------------------- many provisional labels
+# Rasters whose labelling pass hands out many provisional ids and merges chosen ones of them: the
+# bookkeeping of a one-pass labelling (polygonize's `region_lookup` starts with max(64, nx, ny) slots and is
+# doubled / extended on demand; regions' uid counter) is exercised at and around its size boundaries.
+def comb_raster(rng, target=None, max_cells=1600):
+    """k rows of alternating values (row r uses the pair 2r, 2r+1: every cell of these rows is its own
+    provisional region in both connectivities, ids in scan order), optional bridges inside these rows,
+    and a last row of filler with bridges: a bridge over column c of the row below joins the regions of
+    columns c-1 and c+1, i.e. records a merge for the provisional id of column c+1.  With `target` the
+    last row holds a bridge whose upper id is exactly `target` (when reachable).  Returns (raster, info)."""
+    for _ in range(50):
+        N = rng.choice([64, 64, 64, 63, 65, 32, 48, 20, 100, 128, 130, rng.randrange(6, 140)])
+        base = max(64, N)
+        if target is None:
+            S = base * rng.choice([1, 1, 2, 2, 4])
+            T = S - 1 + rng.choice([-2, -1, 0, 0, 0, 0, 0, 1, 2, 3])
+            if rng.random() < 0.25:          # anywhere, e.g. a first merge far beyond twice the table size
+                T = rng.randrange(4, 4 * base)
+        else:
+            T = target
+        k = max(1, -(-T // N))               # rows of alternating values so that id T exists
+        if (k + 1) * N > max_cells or T < 3:
+            continue
+        a = np.empty((k + 1, N), dtype=np.int64)
+        ids = np.zeros((k, N), dtype=np.int64)
+        nid = 0
+        p_inner = rng.choice([0.0, 0.0, 0.03, 0.1])
+        for r in range(k):
+            i = 0
+            while i < N:
+                # a bridge inside the alternating rows: three (or five) cells with the value two columns apart below
+                bw = rng.choice([3, 3, 5])
+                if (r >= 1 and i + bw <= N and rng.random() < p_inner and a[r - 1, i] == a[r - 1, i + bw - 1]
+                        and ids[r - 1, i] and ids[r - 1, i + bw - 1]):
+                    a[r, i:i + bw] = a[r - 1, i]
+                    i += bw
+                    continue
+                a[r, i] = 2 * r + (i % 2)
+                nid += 1
+                ids[r, i] = nid
+                i += 1
+        filler = 2 * k + 7
+        a[k, :] = filler
+        placed = []
+        cols = [c for c in range(1, N - 1) if ids[k - 1, c - 1] and ids[k - 1, c + 1] and a[k - 1, c - 1] == a[k - 1, c + 1]
+                and a[k - 1, c] != a[k - 1, c - 1]]
+        hit = [c for c in cols if ids[k - 1, c + 1] == T]
+        if not hit and target is not None:
+            continue
+        extra = rng.choice([0, 0, 1, 2, 4])
+        chosen = hit[:1] + [rng.choice(cols) for _ in range(extra) if cols]
+        if rng.random() < 0.3 and cols:      # grow the table first: merges at lower ids than the target
+            chosen += [c for c in cols if ids[k - 1, c + 1] < T and rng.random() < 0.2]
+        for c in sorted(set(chosen)):
+            bw = rng.choice([3, 3, 3, 5])
+            lo, hi = c - 1, min(N - 1, c - 1 + bw - 1)
+            if (hi - lo) % 2:
+                hi -= 1
+            a[k, lo:hi + 1] = a[k - 1, c - 1]
+            placed.append(int(ids[k - 1, c + 1]))
+        return a, dict(gen="comb", target=int(T), uppers=sorted(placed))
+    a = (np.add.outer(np.arange(2), np.arange(64)) % 2).astype(np.int64)
+    return a, dict(gen="comb", target=0, uppers=[])
+
+
+STAMPS = [
+    ["1.1", "111"], ["111", "1.1"], ["1.1", "1.1", "111"], ["11", ".1", "11"], ["11", "1.", "11"],
+    ["1.1.1", "11111"], ["..1", "1.1", "111"], ["1..", "1.1", "111"], [".1.", "1.1", "111"],
+    ["1.1", "111", "1.1"], ["1..1", "1111"], ["1.", ".1"], [".1", "1."], ["1.1", ".1."], [".1.", "1.1"],
+    ["11.", ".11", "11."], ["1.1.", "111.", "..11", ".11."],
+]
+
+
+def sparse_raster(rng, max_cells=1600):
+    """every cell its own region (value (i + 2j) mod 5 differs from its W, S, SW and SE neighbours), then
+    a few small shapes of other values stamped at random places: few merges at widely spread provisional
+    ids, so the first (or a later) merge lands far beyond twice the current table size"""
+    shape_kind = rng.choice(["wide", "tall", "square", "any"])
+    if shape_kind == "wide":
+        h, w = rng.randrange(2, 7), rng.randrange(30, 200)
+    elif shape_kind == "tall":
+        h, w = rng.randrange(30, 200), rng.randrange(2, 7)
+    elif shape_kind == "square":
+        h = w = rng.randrange(8, 36)
+    else:
+        h, w = rng.randrange(2, 40), rng.randrange(2, 40)
+    while h * w > max_cells:
+        if h >= w:
+            h = max(2, h * 2 // 3)
+        else:
+            w = max(2, w * 2 // 3)
+    a = (np.add.outer(2 * np.arange(h), np.arange(w)) % 5).astype(np.int64)
+    nst = rng.choice([1, 1, 2, 2, 3, 5, 8])
+    for s in range(nst):
+        st = rng.choice(STAMPS)
+        if rng.random() < 0.3:
+            st = st[::-1]
+        if rng.random() < 0.3:
+            st = [row[::-1] for row in st]
+        sh, sw = len(st), len(st[0])
+        if sh > h or sw > w:
+            continue
+        y, x = rng.randrange(h - sh + 1), rng.randrange(w - sw + 1)
+        if rng.random() < 0.35:              # towards the end of the scan: high provisional ids
+            y = h - sh - rng.randrange(0, min(3, h - sh + 1))
+            y = max(0, y)
+        v = 7 + (s % 2 if rng.random() < 0.5 else 0)
+        for dy, row in enumerate(st):
+            for dx, ch in enumerate(row):
+                if ch == "1":
+                    a[y + dy, x + dx] = v
+    return a, dict(gen="sparse", stamps=nst)
+
+
+def dense_raster(rng, max_cells=1600):
+    """random rasters over two or three values with many short runs: many provisional ids, merged densely
+    (re-links of already merged ids, chains)"""
+    if rng.random() < 0.5:
+        h, w = rng.randrange(2, 8), rng.randrange(30, 180)
+    else:
+        h, w = rng.randrange(30, 180), rng.randrange(2, 8)
+    while h * w > max_cells:
+        if h >= w:
+            h = max(2, h * 2 // 3)
+        else:
+            w = max(2, w * 2 // 3)
+    nvals = rng.choice([2, 2, 3])
+    a = np.array([rng.randrange(nvals) for _ in range(h * w)], dtype=np.int64).reshape(h, w)
+    return a, dict(gen="dense", nvals=nvals)
+
+
+def many_raster(rng, max_cells=1600):
+    mode = rng.choice(["comb", "comb", "comb", "sparse", "sparse", "dense"])
+    if mode == "comb":
+        a, info = comb_raster(rng, max_cells=max_cells)
+        if rng.random() < 0.25:              # the same picture scanned column by column
+            a = np.ascontiguousarray(a.T)
+            info["transposed"] = True
+    elif mode == "sparse":
+        a, info = sparse_raster(rng, max_cells)
+    else:
+        a, info = dense_raster(rng, max_cells)
+    return a, info
 
 
 # ---------------------------------------------------------------- generators
@@ -331,7 +543,18 @@ def gen_case(rng, big=False):
             a[m] = np.nan
         if rng.random() < 0.3:
             a = a - 1          # negative and zero values
-    return dict(kind="grid", n=n, dtype=dtype, grid=[[tok(v) for v in row] for row in a.tolist()], tag=tag)
+    layout = pick_layout(rng, a.shape)
+    if layout.startswith("readonly") and dtype not in ("float64", "int64"):
+        layout = "F" if layout.endswith("F") else "C"     # one numba specialisation less per dtype
+    return dict(kind="grid", n=n, dtype=dtype, grid=[[tok(v) for v in row] for row in a.tolist()], tag=tag, layout=layout)
+
+
+def gen_many(rng, max_cells=1600):
+    """many provisional labels, merges at chosen / widely spread ids (see many_raster)"""
+    a, info = many_raster(rng, max_cells)
+    dtype = rng.choice(["float64", "int64"])
+    return dict(kind="grid", n=rng.choice([4, 8]), dtype=dtype, grid=[[tok(v) for v in row] for row in a.tolist()],
+                tag="many:" + info["gen"], layout=pick_layout(rng, a.shape, cheap=True), info=info)
 
 
 def gen_narrow(rng, which):
@@ -393,22 +616,29 @@ def materialise(c):
 
 
 # ---------------------------------------------------------------- running the real code
-def mk(a, rng=None):
+def mk(a, layout="C"):
+    """DataArray over `a` as it is (no copy: the memory layout of `a` is what the real code sees)"""
     h, w = a.shape
     ys = np.arange(h, dtype=float) * 2.5 + 10
     xs = np.arange(w, dtype=float) * 0.5 - 3
-    return xr.DataArray(a, dims=["lat", "lon"], coords={"lat": ys, "lon": xs, "band": 7},
-                        attrs={"res": (0.5, 2.5), "crs": "EPSG:4326", "nodata": -1}, name="input")
+    kw = dict(attrs={"res": (0.5, 2.5), "crs": "EPSG:4326", "nodata": -1}, name="input")
+    if layout == "xrT":
+        # stored transposed with swapped dims, handed over through xarray's own transpose (a view)
+        t = xr.DataArray(np.ascontiguousarray(np.asarray(a).T), dims=["lon", "lat"], coords={"lat": ys, "lon": xs, "band": 7}, **kw)
+        return t.transpose("lat", "lon")
+    return xr.DataArray(a, dims=["lat", "lon"], coords={"lat": ys, "lon": xs, "band": 7}, **kw)
 
 
-def run_real(a, n, name="lbl"):
+def run_real(a, n, name="lbl", layout="C"):
     from xrspatial.zonal import regions
-    ra = mk(a.copy())
-    before = ra.copy(deep=True)
+    ra = mk(lay(a, layout), layout)
+    before = mk(a.copy()).copy(deep=True)
     try:
         out = regions(ra, neighborhood=n, name=name)
     except ValueError as ex:
         return "ValueError", str(ex), None
+    except Exception as ex:  # noqa: BLE001 -- any other exception on a valid raster is a finding
+        return type(ex).__name__, str(ex)[:300], None
     meta = None
     if out.shape != ra.shape:
         meta = f"shape {out.shape} != {ra.shape}"
@@ -421,9 +651,12 @@ def run_real(a, n, name="lbl"):
     elif set(out.coords) != set(before.coords) or any(not np.array_equal(out.coords[k].values, before.coords[k].values)
                                                       for k in before.coords):
         meta = "coords differ from the input's"
-    elif not np.array_equal(ra.values, before.values, equal_nan=a.dtype.kind == "f"):
+    elif not np.array_equal(np.asarray(ra.data), before.values, equal_nan=a.dtype.kind == "f"):
         meta = "the input raster was modified"
     return "ok", np.asarray(out.data), meta
+
+
+MODEL_MAX_CELLS_MANY = 1700
 
 
 def in_domain(c, a):
@@ -439,7 +672,7 @@ def fail_key(a):
 def check_case(r, c, requests, pending, model=True):
     """run one case on the real code, apply the oracle, queue the model request"""
     a = materialise(c)
-    status, out, meta = run_real(a, c["n"])
+    status, out, meta = run_real(a, c["n"], layout=c.get("layout", "C"))
     if c["n"] not in (4, 8):
         if status != "ValueError":
             r.fail("regions:validation", f"neighborhood={c['n']} accepted", c)
@@ -455,10 +688,10 @@ def check_case(r, c, requests, pending, model=True):
     if in_domain(c, a):
         bad = oracle_labels(a, out, c["n"])
         if bad:
-            r.fail(fail_key(a), f"{bad}; dtype={a.dtype}, shape={a.shape}, "
+            r.fail(fail_key(a), f"{bad}; dtype={a.dtype}, shape={a.shape}, memory layout={c.get('layout', 'C')}, "
                    f"labels min={np.nanmin(out) if out.size else None} max={np.nanmax(out) if out.size else None}", c)
             return
-    if model and a.size <= 400 and a.size > 0:
+    if model and a.size <= (MODEL_MAX_CELLS_MANY if c.get("tag", "").startswith("many:") else 400) and a.size > 0:
         requests.append(f"regions n={c['n']} g={grid_tok(a.astype(np.float64))}")
         lab = np.asarray(out).astype(np.float64)
         pending.append((c, f"{a.shape[0]}x{a.shape[1]}:" + ",".join(tok(v) for v in lab.ravel().tolist())))
@@ -489,6 +722,7 @@ ENUM_PLAN = {
 
 def run_enum_stream(r, plan):
     run_enum = make_enum_runner()
+    run_enum_f = make_enum_runner(fortran=True)
     if not isinstance(r.nontrivial, Counted):
         r.nontrivial = Counted(r.nontrivial)
     jobs = []
@@ -515,6 +749,16 @@ def run_enum_stream(r, plan):
             real, codes = run_enum(h, w, n, al, t0, cnt)
             r.evaluations += cnt
             r.tag(f"enum:k{len(alphabet)}:cells{h * w}", cnt)
+            if h >= 2 and w >= 2:
+                # the same rasters F-ordered: labels must be the same, cell for cell
+                real_f, codes_f = run_enum_f(h, w, n, al, t0, cnt)
+                r.tag("enum:layout:F", cnt)
+                for i in np.nonzero(codes_f)[0][:3]:
+                    c = dict(kind="enum", rows=h, cols=w, n=n, alphabet=alphabet, t=int(t0 + i), dtype="float64", tag="enum", layout="F")
+                    r.fail("regions:components", CODES[int(codes_f[i])] + f" (neighborhood={n}, F-ordered raster)", c)
+                for i in np.nonzero((real_f != mo).any(axis=1))[0][:3]:
+                    c = dict(kind="enum", rows=h, cols=w, n=n, alphabet=alphabet, t=int(t0 + i), dtype="float64", tag="enum", layout="F")
+                    r.disagree("enum", c, real_f[i].tolist(), mo[i].tolist())
             # every enumerated raster is a distinct input; constant rasters / single cells are trivial
             r.nontrivial.extra += (cnt - (len(alphabet) if t0 == 0 else 0)) if h * w >= 2 else 0
             r.extra["enum_rasters"] = r.extra.get("enum_rasters", 0) + cnt
@@ -533,7 +777,11 @@ def run(r, scale=1):
     r.rule = ("enum: every raster over the alphabet for every shape with h*w <= max_cells (float64, NaN as a symbol), both "
               "neighbourhoods, labels compared exactly with the model and checked by flood fill; random: shapes <= 12x14 and "
               "1xN / Nx1 up to 30, 1-4 values, blobs, spirals / combs / rings / checker / U / S / staircases (flipped), "
-              "float64/float32 with NaN, int64/int32; narrow: uint8 / int8 / int16 rasters with more provisional labels than "
+              "float64/float32 with NaN, int64/int32; memory layout of the array handed to regions(): C, F, transposed view, "
+              "strided (C and F parent), negative strides, read-only, DataArray.transpose -- the model and the oracle see the "
+              "logical raster; every enumerated raster with h,w >= 2 is also run F-ordered; many: rasters up to ~1000 (thorough "
+              "1600) cells with 60-1000 provisional labels (alternating rows with bridges, isolated cells with stamped shapes, "
+              "dense random); narrow: uint8 / int8 / int16 rasters with more provisional labels than "
               "the dtype counts; wild (model only): values within / just outside rtol, +-inf, ints >= 1e5; non-trivial = "
               "at least two cells and two distinct values or a NaN")
     requests, pending = [], []
@@ -552,7 +800,16 @@ def run(r, scale=1):
         nontriv = a.size >= 2 and (len(set(a.ravel().tolist())) >= 2)
         r.case(c, desc=c if k < 2 else None, nontrivial=nontriv,
                tags=[f"dtype:{c['dtype']}", f"n:{c['n']}", c["tag"], "nan" if (a != a).any() else "no-nan",
-                     "1xN" if a.shape[0] == 1 else ("Nx1" if a.shape[1] == 1 else "2d")])
+                     "1xN" if a.shape[0] == 1 else ("Nx1" if a.shape[1] == 1 else "2d"), f"layout:{c['layout']}",
+                     "numba-layout:" + layout_class(lay(a, c["layout"]))])
+        check_case(r, c, requests, pending)
+    # --- many provisional labels (combs with bridges at chosen ids, sparse merges, dense random)
+    for k in range({"quick": 60, "thorough": 600}[r.tier] * scale):
+        c = gen_many(r.rng, max_cells={"quick": 1000, "thorough": 1600}[r.tier])
+        a = materialise(c)
+        r.case(c, desc=dict(c, grid=f"{a.shape[0]}x{a.shape[1]}") if k < 1 else None, nontrivial=True,
+               tags=[c["tag"], f"dtype:{c['dtype']}", f"n:{c['n']}", f"layout:{c['layout']}",
+                     "many:cells>=%d" % (100 * (a.size // 100)) if a.size < 500 else "many:cells>=500"])
         check_case(r, c, requests, pending)
     # --- narrow integer dtypes
     for k in range({"quick": 6, "thorough": 16}[r.tier] * scale):
@@ -586,7 +843,7 @@ def search(r):
         return
     n = {"quick": 3000, "thorough": 20000}[r.tier]
     for k in range(n):
-        c = gen_case(r.rng, big=True)
+        c = gen_many(r.rng) if k % 8 == 7 else gen_case(r.rng, big=True)
         r.case(c, nontrivial=True, tags=["search"])
         check_case(r, c, requests, pending, model=False)
         if len(r.failures) >= 3:
